@@ -36,7 +36,9 @@ PROBES = ['shared_created_structures', 'system_as_top', 'built_around_another_sy
     p for p, tok in (('prefix_collision', 'prefix-collision-w'), ('clk_port', 'port-named-clk'), ('inst_port_collision', 'port-vs-instance-name'))
     if not _KF.excluded(tok)]      # naming faults of open findings are kept out of the campaign (their reproducers are replayed instead)
 
-RESERVED = ['reg', 'wire', 'output', 'input', 'signed', 'module', 'begin', 'end', 'assign', 'always', 'integer', 'logic', 'bit']
+RESERVED = ['reg', 'wire', 'output', 'input', 'signed', 'module', 'begin', 'end', 'assign', 'always', 'integer', 'logic', 'bit',
+            # reserved words that are not purely alphabetic
+            'tri0', 'tri1', 'supply0', 'supply1', 'pull0', 'strong1', 'weak0', 'highz1', 'bufif0', 'notif1', 'tranif0', 'rtranif1']
 
 
 def gen(rs, tier, index):
